@@ -39,7 +39,7 @@ class Abort(BaseException):
 
 
 class TRec:
-    __slots__ = ('tid', 'name', 'sem', 'pred', 'timeout', 'done', 'blockver', 'thread', 'steps', 'where')
+    __slots__ = ('tid', 'name', 'sem', 'pred', 'timeout', 'done', 'blockver', 'thread', 'steps', 'where', 'last_run')
 
     def __init__(self, tid, name):
         self.tid, self.name = tid, name
@@ -51,6 +51,7 @@ class TRec:
         self.thread = None
         self.steps = 0
         self.where = ''
+        self.last_run = 0
 
 
 class Sched:
@@ -180,9 +181,11 @@ class Sched:
         for t in self.threads:
             if not t.done and t not in en and t.blockver < self.version and tmo(t):
                 en.append(t)
-        # canonical order: the running participant, then the enabled ones by id, then waiters that
-        # could be woken by time passing (timers, pollers, the environment): those are deviations
-        en.sort(key=lambda t: (t is not me, id(t) not in truly, t.tid))
+        # canonical order: the running participant; then the enabled ones, least recently run first (so
+        # that a participant that was preempted stays preempted while anybody else can move - one
+        # deviation buys a real preemption, not a one-step delay); then waiters that could be woken by
+        # time passing (timers, pollers, the environment): those are deviations
+        en.sort(key=lambda t: (t is not me, id(t) not in truly, t.last_run, t.tid))
         return en
 
     def _fail(self, exc):
@@ -221,6 +224,7 @@ class Sched:
         else:
             c = 0
         nxt = en[c]
+        nxt.last_run = self.version
         if self.collect_states and not self.teardown:
             fp = (tuple(t.steps for t in self.threads), self.fp_hook() if self.fp_hook else 0)
             hfp = hash(fp)
